@@ -41,7 +41,7 @@ def ref_render(lib, f):
     vc = f.get("value_column", 0)
     comma = f.get("trailing_comma", False)
     sep = f.get("block_separator", "\n\n")
-    failed_comment = f.get("parsing_failed_comment") or DEFAULT_FAILED_COMMENT
+    failed_comment = f["parsing_failed_comment"] if f.get("parsing_failed_comment") is not None else DEFAULT_FAILED_COMMENT  # '' is a comment too
     if vc == "auto":
         longest = 0
         for b in lib.blocks:
@@ -347,7 +347,7 @@ def w_grid(acc):
             for indent in ("\t", "", "  ", "--"):
                 for comma in (False, True):
                     for sep in ("\n\n", "", "\n-----\n"):
-                        for fc in (None, "% FAILED ({n} lines)"):
+                        for fc in (None, "% FAILED ({n} lines)") + (("",) if vc in (0, 7, "auto") and indent == "\t" else ()):
                             f = {"indent": indent, "value_column": vc, "trailing_comma": comma, "block_separator": sep, "parsing_failed_comment": fc}
                             acc.run("write", o_write, {"lib": lib, "fmt": f, "via": "writer"}, True)
         acc.run("write", o_write, {"lib": lib, "fmt": None, "via": "writer"}, True)
